@@ -220,3 +220,60 @@ func VerifHarness_C19_p1g2()  { verifC19(1, 2, false, true) }
 func VerifHarness_C19_p1g3()  { verifC19(1, 3, false, true) }
 func VerifHarness_C19_p1sym() { verifC19(1, 1, true, true) }
 func VerifHarness_C19_p2()    { verifC19(2, 1, false, true) }
+
+// verifC19Schema: the schema-scoped entry point (what a schema-bound
+// connection uses, e.g. SQLite's "main"): patterns are relative to the schema.
+// The realm has table names equal to a schema name (schema "a" holds tables
+// "a" and "b"), so a pattern part cannot be confused with the qualifier.
+func verifC19Schema(globLen int) {
+	n := verifChoice("parts", 2) + 1
+	var p verifPat
+	for j := 0; j < n; j++ {
+		p.parts = append(p.parts, verifGlob(fmt.Sprintf("g%d", j), globLen))
+	}
+	p.sel = []string{"", "table|view", "column|index|fk", "check"}[verifChoice("sel", 4)]
+	txt := strings.Join(p.parts, ".")
+	if p.sel != "" {
+		txt += "[type=" + p.sel + "]"
+	}
+	r := verifRealm(false)
+	before := verifListRealm(r)
+	si := verifChoice("schema", 2)
+	s := r.Schemas[si]
+	got, err := ExcludeSchema(s, []string{txt})
+	if err != nil {
+		verifReach("error")
+		return
+	}
+	verifReach("ok")
+	verifAssert(got == s, "the schema itself is returned")
+	after := map[string]bool{}
+	for _, x := range verifListRealm(r) {
+		after[verifKey(x)] = true
+	}
+	// reference: the pattern qualified with the literal schema name
+	ref := []verifPat{{parts: append([]string{s.Name}, p.parts...), sel: p.sel}}
+	for _, x := range before {
+		if x.kind == "schema" {
+			verifAssert(after[verifKey(x)], "a schema-scoped pattern never removes a schema")
+			continue
+		}
+		ex := x.schema == s.Name && verifExcluded(x, ref)
+		if x.kind != "table" && x.schema == s.Name {
+			ex = ex || verifExcluded(verifRes{kind: "table", schema: x.schema, table: x.table}, ref)
+		}
+		present := after[verifKey(x)]
+		if ex {
+			verifReach("excluded")
+			verifAssert(!present, "a resource of the schema matching the pattern is absent: "+x.kind)
+			continue
+		}
+		if x.onCol != "" && x.schema == s.Name && verifExcluded(verifRes{kind: "column", schema: x.schema, table: x.table, name: x.onCol}, ref) {
+			continue
+		}
+		verifAssert(present, "a resource matching no pattern (or of another schema) is still present: "+x.kind)
+	}
+}
+
+func VerifHarness_C19_schema1() { verifC19Schema(1) }
+func VerifHarness_C19_schema2() { verifC19Schema(2) }
